@@ -67,6 +67,12 @@ func (p *Prog) renames() *renameState {
 	}
 	rs := &renameState{index: map[string]anchorRec{}, names: map[string]bool{}, alias: map[string]*FuncInfo{}, byQName: map[string]string{}}
 	var idx anchorsIndex
+	// measurements against an older reference tree (refacw.sh on a base commit) supply that tree's index
+	if alt := os.Getenv("VERIF_ANCHORS_IN"); alt != "" {
+		if data, err := os.ReadFile(alt); err == nil {
+			anchorsIndexRaw = data
+		}
+	}
 	if len(anchorsIndexRaw) > 0 {
 		if err := json.Unmarshal(anchorsIndexRaw, &idx); err != nil {
 			_ = json.Unmarshal(anchorsIndexRaw, &idx.Funcs)
